@@ -281,10 +281,14 @@ func (t *trzszTransfer) addReceivedData(buf []byte, tunnel bool) {
 }
 
 func (t *trzszTransfer) stopTransferringFiles(stopAndDelete bool) {
+	if t.stopped.Load() {
+		return
+	}
+	// the kind of stop must be visible before the stop itself: checkStop reads both flags
+	t.stopAndDelete.Store(stopAndDelete)
 	if !t.stopped.CompareAndSwap(false, true) {
 		return
 	}
-	t.stopAndDelete.Store(stopAndDelete)
 	t.buffer.stopBuffer()
 
 	if !t.tunnelConnected {
@@ -320,10 +324,10 @@ func (t *trzszTransfer) resumeTransferringFiles() {
 }
 
 func (t *trzszTransfer) checkStop() error {
-	if t.stopAndDelete.Load() {
-		return errStoppedAndDeleted
-	}
 	if t.stopped.Load() {
+		if t.stopAndDelete.Load() {
+			return errStoppedAndDeleted
+		}
 		return errStopped
 	}
 	return nil
